@@ -63,6 +63,11 @@ StateMonitors(f, mode, snap, partial, keyt, torn) ==
       \cup {<<"NoDangling", x>> : x \in Dangling(f, Bands(f))}
       \cup {<<"SnapRestores", b>> : b \in SnapBroken(f, snap, partial)}
       \cup (IF keyt = "Hunk" THEN {<<"RecordedBytes", x>> : x \in RecordedWrong(f, snap)} ELSE {})
+    \* ("mutating": the source changes under the backup -- what the version should restore to is not
+    \* defined then, but what is written must still be well-formed and name only what exists)
+    ELSE IF mode = "mutating" THEN
+           {<<"Format", x>> : x \in {v \in FormatViol(f) : v[2] \notin torn}}
+      \cup {<<"NoDangling", x>> : x \in Dangling(f, Bands(f))}
     ELSE IF mode = "fault" THEN
            {<<"Format", x>> : x \in {v \in FormatViol(f) : v[2] \notin torn}}
       \cup {<<"NoDangling", x>> : x \in Dangling(f, Bands(f))}
@@ -224,7 +229,7 @@ BackupRetMonitors(r, c) ==
   \cup If(r.timeout, {<<"Hang", "backup">>})
   \cup If(faultfree /\ (~success \/ (cleanStart /\ r.mon_errors # 0)),
           {<<"BackupNotClean", <<r.res, r.errors, r.mon_list>> >>})
-  \cup If(~r.crashed /\ ~good /\ ~g.damaged /\ g.mode # "big" /\ (silent \/ (faultfree /\ success)),
+  \cup If(~r.crashed /\ ~good /\ ~g.damaged /\ g.mode \notin {"big", "mutating"} /\ (silent \/ (faultfree /\ success)),
           {<<"CompleteSuccessWrong", <<b, IF b # -1 /\ HeadOK(fs, b) THEN TreeDiff(c.want, RestoreOf(fs, b)) ELSE {}>> >>})
   \* C10: after a stored file was deleted or emptied a new backup completes and restores exactly
   \cup If(g.damaged /\ g.dmghow \in {"delete", "trunc0"} /\ ~c.injected /\ ~r.panic /\ (r.res # "ok" \/ r.errors # 0 \/ ~good),
